@@ -28,6 +28,7 @@ func init() {
 		quick = append(quick, &Job{Pkg: "", Func: "ZZ_C12_Buffered", Args: c, Bounds: "two concurrent writers (Write1 / Writev / Write / CtxWrite1 / CtxWritev / ReadFrom) on a channel over the repository's real write-buffered transport (bufio.Writer is monitored state)", Race: true, ConcreteClock: true})
 	}
 	quick = append(quick, &Job{Pkg: "", Func: "ZZ_C12_Pool", Bounds: "two goroutines Get/Put on the shared byte pool", Race: true})
+	quick = append(quick, &Job{Pkg: "utils/pool/pbuffer", Func: "ZZ_C19_BufferHandOver", Args: []int64{65536, 100}, Bounds: "a pooled bytes.Buffer handed from one goroutine to another through the pool (precise pool model; Put(x) happens before the Get that returns x)", Race: true, PoolPrecise: true})
 	Specs["C12"] = &Spec{
 		Jobs: jobsBy(quick, thorough), Labels: labelFilter("c12-"),
 		MustReach: []string{"c12-channel-done", "c12-bootstrap-done", "c12-idle-done", "c12-pool-done", "c12-buffered-done"},
